@@ -299,7 +299,7 @@ pub fn run_side_effect_analysis(cfg: &Cfg) -> ReportCollection {
         .collect::<HashSet<_>>();
 
     // Add input and output signals to this set.
-    sinks.extend(exported_signals);
+    sinks.extend(exported_signals.iter().cloned());
     // println!("constraint sinks: {sinks:?}");
 
     // Add variables occurring in declarations, return values, asserts, and
@@ -334,6 +334,10 @@ pub fn run_side_effect_analysis(cfg: &Cfg) -> ReportCollection {
             continue;
         }
         if !variables_read.contains(source.name()) {
+            // Input and output signals are read outside the template.
+            if exported_signals.contains(source.name()) {
+                continue;
+            }
             // If the variable is unread, the corresponding value is unused.
             if cfg.parameters().contains(source.name()) {
                 reports.push(build_unused_param(source, cfg.name()))
@@ -365,8 +369,8 @@ pub fn run_side_effect_analysis(cfg: &Cfg) -> ReportCollection {
         if reported_vars.contains(&source.to_string()) {
             continue;
         }
-        if !variables_read.contains(source) {
-            // If the variable is unread, it must be unconstrained.
+        if !variables_read.contains(source) && taint_analysis.get_definition(source).is_none() {
+            // If the variable is neither read nor assigned, it is unused.
             reports.push(build_unused_signal(declaration));
         } else if matches!(cfg.definition_type(), DefinitionType::Template)
             && !taint_analysis.taints_any(source, &constraint_analysis.constrained_variables())
